@@ -58,6 +58,7 @@ mod color_eyre { pub use super::Report; }
 //@end
 
 //@fn rln/src/utils.rs vec_fr_to_bytes_le
+//@attr loop_isolation(false)
 //@tags C10
 //@ret r
 //@subst `for el in input` => `for el in it: input`
